@@ -13,6 +13,7 @@ History sub-checks (the case is the operation log)::
 
 The reference enumeration of every group kind lives in vlib/groupref.py.
 """
+import bisect
 import io
 import itertools
 import os
@@ -48,6 +49,10 @@ ASSUMPTIONS = [
     "add_clause(check=False) is used only with literals inside the declared range",
     "the renderings are read with the independent readers: 'c varname <id> <name>' / '* varname x<id> <name>' lines, "
     "and the literal table of the LaTeX output through unit clauses (names compared after removing braces and blanks)",
+    "scale: groups with more than 10^4 variables are questioned on sampled indices only (positions from "
+    "random.Random(rseed)); a tuple near a legal index is legal or not according to the definition of the kind (block: "
+    "1..range per position; combinations: strictly increasing in 1..n; with replacement: non-decreasing; permutations: "
+    "pairwise distinct; words: any), bool entries are not offered",
     "command line: the names of php, op, ram, cliquecoloring, vdw, bphp, kcolor, peb, tseitin are computed by the "
     "harness from the documented naming of the families; for random graphs only the order of the decoded edges is "
     "asserted, together with equality with the names of the formula built through cli(mode='formula')",
@@ -851,6 +856,435 @@ def enum_cli(tier):
 
 
 # ---------------------------------------------------------------------------
+# large groups (more than 10^4 variables), alone and stacked
+#
+#   {"cls": "CNF", "pre": 3, "stack": [{"kind": "block", "ranges": [100, 100], "label": ...},
+#                                       {"kind": "combinations", "n": 30, "k": 4, "label": ...}],
+#    "tail": 2, "rseed": 12345}
+#
+# The reference enumeration (itertools, vlib/groupref) is still built completely - it is
+# cheap - but the group is questioned only on sampled indices: the first and last ones,
+# windows of consecutive positions and single positions, all taken from
+# random.Random(rseed).  Around every sampled legal index the neighbouring tuples
+# (two entries swapped, an entry repeated, 0, n+1 or a negative number in any position,
+# an entry moved by one, the reversed tuple, one entry more or less) are classified by
+# `legal_index`, a membership predicate written from the definition of the group kind:
+# the legal ones must round-trip to their position in the enumeration, the others must
+# be refused by g(...), g.indices(...) and g.label(...).
+
+SCALE_WINDOW = 40
+SCALE_SINGLES = 60
+
+
+def legal_index(spec, t):
+    """Is the tuple t an index of the group?  (definition of the kind, no enumeration)"""
+    kind = spec['kind']
+    if any(isinstance(x, bool) or not isinstance(x, int) for x in t):
+        return False
+    if kind == 'block':
+        rs = spec['ranges']
+        return len(t) == len(rs) and all(1 <= x <= r for x, r in zip(t, rs))
+    n, k = spec['n'], spec['k']
+    if k is None:
+        k = n
+    if len(t) != k or any(not (1 <= x <= n) for x in t):
+        return False
+    if kind == 'combinations':
+        return all(a < b for a, b in zip(t, t[1:]))
+    if kind == 'combinations_with_replacement':
+        return all(a <= b for a, b in zip(t, t[1:]))
+    if kind == 'permutations':
+        return len(set(t)) == len(t)
+    if kind == 'words':
+        return True
+    raise ValueError(kind)
+
+
+def neighbours(spec, idx):
+    """Tuples near the legal index idx: [(how, tuple)], legal or not."""
+    idx = tuple(idx)
+    k = len(idx)
+    if spec['kind'] == 'block':
+        tops = list(spec['ranges'])
+    else:
+        tops = [spec['n']] * k
+    out = []
+    for i in range(k):
+        first = 'leading' if i == 0 else 'non-leading'
+        if i + 1 < k:
+            t = list(idx)
+            t[i], t[i + 1] = t[i + 1], t[i]
+            out.append(('swapped', tuple(t)))
+            t = list(idx)
+            t[i + 1] = t[i]
+            out.append(('repeated', tuple(t)))
+            t = list(idx)
+            t[i] = t[i + 1]
+            out.append(('repeated', tuple(t)))
+        for how, val in (('zero-' + first, 0), ('top+1-' + first, tops[i] + 1), ('negative', -idx[i]),
+                         ('plus-one', idx[i] + 1), ('minus-one', idx[i] - 1), ('top', tops[i]), ('one', 1)):
+            t = list(idx)
+            t[i] = val
+            out.append((how, tuple(t)))
+    out.append(('reversed', idx[::-1]))
+    out.append(('rotated', idx[1:] + idx[:1]))
+    out.append(('shorter', idx[:-1]))
+    out.append(('shorter', idx[1:]))
+    out.append(('longer', idx + idx[-1:]))
+    out.append(('longer', idx + (tops[-1],)))
+    out.append(('longer', (1,) + idx))
+    seen = set()
+    uniq = []
+    for how, t in out:
+        if t != idx and t not in seen and len(t) > 0:
+            seen.add(t)
+            uniq.append((how, t))
+    return uniq
+
+
+def check_group_sampled(F, g, ref, first, rng, where, windows=3, singles=SCALE_SINGLES, neighbourhood=True):
+    """Sampled version of groupref.check_group for large groups; returns labels."""
+    seen = set()
+    N = ref.N
+    spec = ref.spec
+    head = "{} ({}, identifiers {}..{})".format(ref.describe(), where, first, first + N - 1)
+    if len(g) != N:
+        raise Violation("{}: len() is {}, the reference has {} indices".format(head, len(g), N))
+    ids = list(g)
+    if ids != list(range(first, first + N)):
+        bad = [j for j, v in enumerate(ids[:N]) if v != first + j][:1]
+        raise Violation("{}: iterating the group gives {} identifiers, not the contiguous range (first difference "
+                        "at position {})".format(head, len(ids), bad))
+    got_idx = [tuple(t) for t in g.indices()]
+    if got_idx != ref.indices:
+        j = 0
+        while j < min(len(got_idx), N) and got_idx[j] == ref.indices[j]:
+            j += 1
+        raise Violation("{}: indices() has {} entries and differs from the legal indices in order at position {}: "
+                        "{} instead of {}".format(head, len(got_idx), j, got_idx[j:j + 3], ref.indices[j:j + 3]))
+    # harness self-check: the predicate agrees with the enumeration on the sampled indices
+    positions = []
+    W = min(SCALE_WINDOW, N)
+    starts = [0, N - W] + [rng.randrange(0, N - W + 1) for _ in range(windows)]
+    for s0 in starts:
+        positions.extend(range(s0, s0 + W))
+    single = [rng.randrange(N) for _ in range(singles)]
+    positions.extend(single)
+    for pos in positions:
+        idx = ref.indices[pos]
+        v = first + pos
+        assert legal_index(spec, idx), (spec, idx)
+        got = g(*idx)
+        if got != v or isinstance(got, bool) or not isinstance(got, int):
+            raise Violation("{}: index {} -> identifier {!r}, expected {} = {} + position {} in the enumeration".format(
+                head, idx, got, v, first, pos))
+        for lit in (v, -v):
+            back = tuple(g.to_index(lit))
+            if back != idx:
+                raise Violation("{}: to_index({}) = {} but {} is the identifier of index {}".format(
+                    head, lit, back, v, idx))
+            if lit not in g:
+                raise Violation("{}: `{} in group` is False for an identifier of the group".format(head, lit))
+        one = [tuple(t) for t in g.indices(*idx)]
+        if one != [idx]:
+            raise Violation("{}: indices{} = {} instead of the index itself".format(head, idx, one))
+        want = ref.label_of(idx)
+        if want is not None:
+            lab = g.label(*idx)
+            if lab != want:
+                raise Violation("{}: label{} = {!r}, the label format gives {!r}".format(head, idx, lab, want))
+    seen.add('sampled-windows')
+    for s_ in (first - 1, first + N):
+        for lit in (s_, -s_):
+            if lit != 0 and lit in g:
+                raise Violation("{}: `{} in group` is True for an identifier outside the group".format(head, lit))
+            if lit != 0:
+                gr.must_refuse("{}: to_index({})".format(head, lit), lambda: g.to_index(lit))
+    gr.must_refuse("{}: to_index(0)".format(head), lambda: g.to_index(0))
+    if not neighbourhood:
+        return seen
+    centres = [0, N - 1] + single
+    for pos in centres:
+        idx = ref.indices[pos]
+        for how, t in neighbours(spec, idx):
+            ok = legal_index(spec, t)
+            assert ok == (t in ref.index_set), (spec, t, ok)
+            if ok:
+                j = _position(ref, t)
+                got = g(*t)
+                if got != first + j:
+                    raise Violation("{}: index {} ({} from {}) -> identifier {!r}, expected {}".format(
+                        head, t, how, idx, got, first + j))
+                back = tuple(g.to_index(got))
+                if back != t:
+                    raise Violation("{}: to_index({}) = {} but {} is the identifier of index {}".format(
+                        head, got, back, got, t))
+                seen.add('legal-neighbour')
+            else:
+                what = " with {} ({} from the index {})".format(t, how, idx)
+                gr.must_refuse(head + ": the call" + what, lambda: g(*t))
+                gr.must_refuse(head + ": indices()" + what, lambda: g.indices(*t))
+                gr.must_refuse(head + ": label()" + what, lambda: g.label(*t))
+                seen.add('refused-index')
+                seen.add('refused-' + how)
+    return seen
+
+
+def _position(ref, t):
+    """Position of a legal index in the reference enumeration.  The enumerations of blocks and
+    of the four word kinds are lexicographic (asserted), so it is found by bisection."""
+    j = bisect.bisect_left(ref.indices, t)
+    assert j < ref.N and ref.indices[j] == t, (ref.spec, t)
+    return j
+
+
+def _block_patterns(ref, rng):
+    """A few wildcard patterns of a large block: one position fixed, all but one fixed, one
+    position out of range."""
+    rs = ref.ranges
+    a = len(rs)
+    out = []
+    p = rng.randrange(a)
+    pat = [None] * a
+    pat[p] = rng.randint(1, rs[p])
+    out.append(tuple(pat))
+    q = rng.randrange(a)
+    pat = [rng.randint(1, r) for r in rs]
+    pat[q] = None
+    out.append(tuple(pat))
+    if a >= 3:
+        pat = [None] * a
+        pat[0] = rng.randint(1, rs[0])
+        pat[a - 1] = rng.randint(1, rs[a - 1])
+        out.append(tuple(pat))
+    bad = []
+    for val in (0, rs[p] + 1, -1):
+        pat = [None] * a
+        pat[p] = val
+        bad.append(tuple(pat))
+    return out, bad
+
+
+def run_scale(case):
+    clsname = case['cls']
+    rng = random.Random(case['rseed'])
+    F = _mk(clsname)
+    model = gr.Model()
+    pre = case.get('pre', 0)
+    if pre:
+        F.update_variable_number(pre)
+        model.nv = pre
+    labels = set([clsname])
+    recs = []
+    for depth, spec in enumerate(case['stack']):
+        ref = gr.Ref(spec)
+        if ref.kind == 'variable':
+            v = ref.create(F)
+            rec = model.add_group(ref, v)
+            gr.check_group(F, v, ref, rec['first'], "large stack, position {}".format(depth))
+            continue
+        assert not ref.invalid and ref.N > 0 and ref.indices == sorted(ref.indices), spec
+        where = "{} with {} variables before".format(clsname, model.nv)
+        g = ref.create(F)
+        rec = model.add_group(ref, g)
+        recs.append(rec)
+        if F.number_of_variables() != model.nv:
+            raise Violation("{}: after {} the formula has {} variables, expected {}".format(
+                where, ref.describe(), F.number_of_variables(), model.nv))
+        labels |= check_group_sampled(F, g, ref, rec['first'], rng, where)
+        labels.add(ref.kind)
+        if ref.N > 10000:
+            labels.add('more-than-10^4')
+        if ref.N > 50000:
+            labels.add('more-than-5*10^4')
+        if rec['first'] > 10000:
+            labels.add('offset-above-10^4')
+        if ref.kind == 'block':
+            pos = dict(zip(ref.indices, range(rec['first'], rec['first'] + ref.N)))
+            good, bad = _block_patterns(ref, rng)
+            head = "{} ({})".format(ref.describe(), where)
+            for pat in good:
+                want_idx = ref.matches(pat)
+                want_ids = [pos[i] for i in want_idx]
+                got_ids = gr.consume(g(*pat))
+                if got_ids != want_ids:
+                    raise Violation("{}: pattern {} selects {} identifiers {}...; the {} matching indices in order "
+                                    "start with {} = {}".format(head, pat, len(got_ids), got_ids[:8], len(want_ids),
+                                                                want_idx[:8], want_ids[:8]))
+                got_i = [tuple(t) for t in g.indices(*pat)]
+                if got_i != want_idx:
+                    raise Violation("{}: indices{} gives {} indices {}...; expected {} starting with {}".format(
+                        head, pat, len(got_i), got_i[:8], len(want_idx), want_idx[:8]))
+                if ref.label is not None:
+                    got_l = gr.consume(g.label(*pat))
+                    if got_l != [ref.label_of(i) for i in want_idx]:
+                        raise Violation("{}: label{} = {}...; expected {}".format(
+                            head, pat, got_l[:8], [ref.label_of(i) for i in want_idx[:8]]))
+                labels.add('wildcard')
+            for pat in bad:
+                gr.must_refuse("{}: pattern {} through the call".format(head, pat), lambda: g(*pat))
+                gr.must_refuse("{}: indices{}".format(head, pat), lambda: g.indices(*pat))
+                labels.add('wildcard-out-of-range')
+    tail = case.get('tail', 0)
+    if tail:
+        F.update_variable_number(model.nv + tail)
+        model.nv += tail
+    if len(recs) >= 2:
+        labels.add('stacked')
+    # every group again after the later ones, and against the identifiers of the others
+    firsts = [r['first'] for r in recs]
+    for rec in recs:
+        labels |= check_group_sampled(F, rec['g'], rec['ref'], rec['first'], rng, "at the end of the stack",
+                                      windows=1, singles=10, neighbourhood=len(recs) >= 2)
+        lo, hi = rec['first'], rec['first'] + rec['ref'].N
+        for v in firsts + [model.nv, model.nv + 1]:
+            if not (lo <= v < hi) and v >= 1:
+                gr.must_refuse("{}: to_index({}), an identifier outside the group,".format(rec['ref'].describe(), v),
+                               lambda: rec['g'].to_index(v))
+    # names: one per variable, the sampled ones compared
+    names = list(F.all_variable_labels())
+    if F.number_of_variables() != model.nv or len(names) != model.nv:
+        raise Violation("{} large stack: {} variables and {} names, expected {}".format(
+            clsname, F.number_of_variables(), len(names), model.nv))
+    for rec in model.groups:
+        ref = rec['ref']
+        if ref.kind == 'variable':
+            picks = [0]
+        else:
+            picks = [0, ref.N - 1] + [rng.randrange(ref.N) for _ in range(50)]
+        for pos in picks:
+            idx = ref.indices[pos]
+            v = rec['first'] + pos
+            want = ref.label_of(idx)
+            if want is None and ref.kind != 'variable':
+                want = rec['g'].label(*idx)
+            if want is not None and names[v - 1] != want:
+                raise Violation("{} large stack: variable {} is reported as {!r}, expected {!r}, the label of index {} "
+                                "of {}".format(clsname, v, names[v - 1], want, idx, ref.describe()))
+    anonymous = list(range(1, pre + 1)) + list(range(model.nv - tail + 1, model.nv + 1))
+    for v in anonymous:
+        if names[v - 1] != 'x{}'.format(v):
+            raise Violation("{} large stack: variable {} belongs to no group but is reported as {!r}".format(
+                clsname, v, names[v - 1]))
+    if anonymous:
+        labels.add('anonymous-around')
+    return Outcome(labels=sorted(labels), nontrivial=True)
+
+
+def _count(spec):
+    from math import comb, perm
+    kind = spec['kind']
+    if kind == 'block':
+        out = 1
+        for r in spec['ranges']:
+            out *= r
+        return out
+    n, k = spec['n'], spec['k']
+    if k is None:
+        k = n
+    return {'combinations': comb(n, k), 'combinations_with_replacement': comb(n + k - 1, k) if n + k else 1,
+            'permutations': perm(n, k) if k <= n else 0, 'words': n ** k}[kind]
+
+
+def scale_shapes(lo, hi):
+    """Every word group with lo < size <= hi for k in 2..8, k=n-ish long words, and blocks."""
+    out = []
+    for kind in gr.WORD_KINDS:
+        for k in (2, 3, 4, 5, 6, 8, 14):
+            for n in range(2, 400):
+                spec = {'kind': kind, 'n': n, 'k': k}
+                c = _count(spec)
+                if c > hi:
+                    break
+                if c > lo:
+                    out.append(spec)
+    for n in (7, 8):
+        spec = {'kind': 'permutations', 'n': n, 'k': None}
+        if lo < _count(spec) <= hi:
+            out.append(spec)
+    for rs in ([101, 100], [100, 100, 2], [40, 50, 6], [11, 10, 10, 10], [3, 4000], [5000, 3], [7, 6, 5, 8, 9],
+               [2] * 14, [1, 20000, 1], [100, 100, 10], [10, 10, 10, 10, 10], [300, 300], [46, 47, 48]):
+        spec = {'kind': 'block', 'ranges': rs}
+        if lo < _count(spec) <= hi:
+            out.append(spec)
+    return out
+
+
+def _labelled(spec, tag, j):
+    spec = dict(spec)
+    if spec['kind'] == 'block':
+        styles = label_styles('block', tag, len(spec['ranges']))
+    else:
+        styles = label_styles(spec['kind'], tag)
+    spec['label'] = styles[j % len(styles)]
+    return spec
+
+
+_BRIEF_SHAPES = [{'kind': 'combinations', 'n': 30, 'k': 4}, {'kind': 'permutations', 'n': 25, 'k': 3},
+                 {'kind': 'words', 'n': 5, 'k': 6}, {'kind': 'combinations_with_replacement', 'n': 22, 'k': 4},
+                 {'kind': 'block', 'ranges': [40, 50, 6]}, {'kind': 'block', 'ranges': [101, 100]}]
+# ground sets with more than 255 elements
+_WIDE_SHAPES = [{'kind': 'combinations', 'n': 300, 'k': 2}, {'kind': 'combinations_with_replacement', 'n': 256, 'k': 2},
+                {'kind': 'words', 'n': 256, 'k': 2}, {'kind': 'permutations', 'n': 257, 'k': 2}]
+
+
+def enum_scale(tier):
+    j = 0
+    singles = list(_BRIEF_SHAPES) + list(_WIDE_SHAPES)
+    if tier == 'quick':
+        pool = scale_shapes(10000, 30000)
+        singles += pool[::6]
+    else:
+        pool = scale_shapes(10000, 110000)
+        singles += pool
+    for spec in singles:
+        j += 1
+        yield {'cls': ['CNF', 'OPB'][j % 2], 'pre': [0, 3, 1, 20000][j % 4], 'stack': [_labelled(spec, 'g', j)],
+               'tail': [0, 2][j % 2], 'rseed': 1000 + j}
+    B = _BRIEF_SHAPES
+    X = {'kind': 'variable', 'label': 'X'}
+    stacks = [[B[5], B[0], B[1]], [B[2], B[3], B[0]], [B[0], X, B[1]], [B[1], B[1]], [B[3], B[4], B[2], B[0]],
+              [B[0], B[0]], [B[4], X, B[3]]]
+    if tier != 'quick':
+        big = [s for s in pool if _count(s) > 80000]
+        stacks += [[big[i], big[(i * 7 + 3) % len(big)]] for i in range(0, len(big), 3)]
+    for stack in stacks:
+        j += 1
+        yield {'cls': ['CNF', 'OPB'][j % 2], 'pre': [0, 5, 12000][j % 3],
+               'stack': [s if s['kind'] == 'variable' else _labelled(s, 'abcd'[d], j + d) for d, s in enumerate(stack)],
+               'tail': [3, 0][j % 2], 'rseed': 2000 + j}
+
+
+_SCALE_POOLS = {}
+
+
+def _scale_pool():
+    t = _tier()
+    if t not in _SCALE_POOLS:
+        _SCALE_POOLS[t] = scale_shapes(10000, 30000 if t == 'quick' else 110000)
+    return _SCALE_POOLS[t]
+
+
+@st.composite
+def _scale_strategy(draw):
+    pool = _scale_pool()
+    depth = 1 + draw(_INT) % 3
+    stack = []
+    total = 0
+    for d in range(depth):
+        spec = _pick(draw, pool)
+        if total and total + _count(spec) > 160000:
+            break
+        total += _count(spec)
+        spec = _labelled(spec, 'abc'[d], draw(_INT))
+        stack.append(spec)
+        if draw(_INT) % 5 == 0:
+            stack.append({'kind': 'variable', 'label': 'V' + str(d)})
+    return {'cls': _pick(draw, ['CNF', 'OPB']), 'pre': _pick(draw, [0, 0, 1, 4, 9999, 10000, 25000]), 'stack': stack,
+            'tail': draw(_INT) % 3, 'rseed': draw(_INT)}
+
+
+# ---------------------------------------------------------------------------
 
 _COMMON = ("oracle: identifiers are the next contiguous range; indices() equals the reference enumeration (itertools / "
            "sorted edge lists) in identifier order; g(*i) and to_index(+-g(*i)) are inverse on every index; every pattern "
@@ -919,6 +1353,32 @@ SUBCHECKS = [
              required_labels=list(gr.MAP_KINDS) + ['empty-group', 'named-after-anonymous', 'wildcard',
                                                    'wildcard-proper-subset', 'refused-index', 'rejected-creation',
                                                    'gap-between-groups', 'rendered']),
+    SubCheck('scale', run_scale, strategy=lambda: _scale_strategy(), enumerate_cases=enum_scale,
+             quick=12, thorough=300,
+             rule="groups with more than 10^4 variables: new_combinations(30,4), new_permutations(25,3), new_words(5,6), "
+                  "new_combinations_with_replacement(22,4), new_block(40,50,6), new_block(101,100), four groups on ground sets "
+                  "of 256..300 elements with k=2 (up to 66000 variables), every sixth (thorough: "
+                  "every) word group with 10^4 < size <= 3*10^4 (thorough 1.1*10^5) for k in {2,3,4,5,6,8,14}, "
+                  "new_permutations(8), blocks with 2..14 ranges; alone after 0/1/3/20000 anonymous variables and in stacks "
+                  "of 2..4 large groups (a single variable in between, offsets up to 10^5), CNF and OPB; Hypothesis: stacks "
+                  "of 1..3 shapes from the same pool. oracle: len, contiguous identifiers and indices() equal to the "
+                  "itertools enumeration (complete, cheap); on sampled positions from random.Random(rseed) (first and "
+                  "last window of 40 consecutive positions, 3 random windows, 60 single positions): index -> first + "
+                  "position, to_index(+-id) -> index, indices(index), label(index), membership; around the first, the last "
+                  "and every single sampled index all neighbouring tuples (entries swapped, repeated, 0, range+1, negated, "
+                  "+-1, reversed, rotated, one entry more or less) are classified by a membership predicate written from "
+                  "the definition of the kind (asserted equal to membership in the enumeration): legal ones must map to "
+                  "their position, the others must raise ValueError from g(...), g.indices(...) and g.label(...); large "
+                  "blocks: three wildcard patterns against the filtered enumeration, out-of-range wildcard patterns refused; "
+                  "every group is sampled again after the later groups and must refuse the identifiers of the others; "
+                  "all_variable_labels() has one name per variable, compared at sampled positions and on every anonymous "
+                  "variable. Non-trivial: always (every case has a group with more than 10^4 variables).",
+             required_labels=['CNF', 'OPB', 'block'] + list(gr.WORD_KINDS) +
+                             ['more-than-10^4', 'offset-above-10^4', 'stacked', 'sampled-windows', 'legal-neighbour',
+                              'refused-index', 'refused-swapped', 'refused-repeated', 'refused-zero-leading',
+                              'refused-zero-non-leading', 'refused-top+1-leading', 'refused-top+1-non-leading',
+                              'refused-negative', 'refused-shorter', 'refused-longer', 'refused-reversed', 'wildcard',
+                              'wildcard-out-of-range', 'anonymous-around']),
     SubCheck('history_cnf', run_history, strategy=_history_strategy('CNF'), enumerate_cases=enum_history('CNF'),
              quick=1500, thorough=20000,
              rule="CNF: operation logs of 0..14 (thorough 0..30) steps interleaving creation of groups of every kind "
